@@ -427,4 +427,49 @@ func c02Run(u *vfUnit) {
 			os.RemoveAll(e.dir)
 		}
 	}
+	if kind == vfRS {
+		c02ReusedReplyObjects(u, alloc)
+	}
+}
+
+// c02ReusedReplyObjects: a handler that hands out the same reply objects again and again (one *StatVFS value, one
+// lister, one os.FileInfo for every call). Requests are sent one at a time, each after the previous reply has
+// arrived, so the handler's object is never in use twice: every reply carries the id of its own request.
+func c02ReusedReplyObjects(u *vfUnit, alloc bool) {
+	store := vfNewStore()
+	store.Put("/file", []byte("0123456789"))
+	store.Mkdir("/dir")
+	store.Put("/dir/x", []byte("x"))
+	store.SharedReplies = true
+	rs, err := vfRawConnect(vfSrvCfg{Kind: vfRS, Alloc: alloc, H: store.Handlers(vfHandlerOpt{OpenFile: true, CmdAll: true, ListAll: true})}, vfPipeOpts{}, true)
+	if err != nil {
+		u.Inconclusive("connect: %v", err)
+		return
+	}
+	label := fmt.Sprintf("RequestServer/alloc=%v/reused-reply-objects", alloc)
+	id := uint32(40 + u.Index)
+	for round := 0; round < 3; round++ {
+		for _, req := range []vfPkt{
+			{Type: rfExtended, Ext: "statvfs@openssh.com", Path: "/"},
+			{Type: rfStat, Path: "/file"},
+			{Type: rfLstat, Path: "/file"},
+			{Type: rfRealpath, Path: "/dir"},
+		} {
+			id += 1 + uint32(round)
+			req.ID = id
+			resp, err := rs.R.Phase(60*time.Second, req)
+			u.Count("requests_answered_from_reused_objects", 1)
+			if err != nil || len(resp) != 1 {
+				u.Violation("missing-response:RequestServer:reused-objects", fmt.Sprintf("%s: %s answered %v (%v)", label, req, resp, err), nil)
+				rs.End(60 * time.Second)
+				return
+			}
+			if resp[0].ID != id || resp[0].Type == rfStatus {
+				u.Violation("response-id:RequestServer:reused-objects", fmt.Sprintf("%s: request %s was answered with %s", label, req, resp[0]), nil)
+			}
+		}
+	}
+	if msg := rs.End(60 * time.Second); msg != "" {
+		u.Violation("serve-end:RequestServer", label+": "+msg, nil)
+	}
 }
